@@ -73,7 +73,7 @@ def run_part(chk):
             d = jg.mutate(rng, d)
         cases.append(("mutation", name, d))
     jcases = [{"xml": d.hex(), "events": False} for _, _, d in cases]
-    impl = vlib.run_impl("jacoco", jcases, chk.pid, parallel=8)
+    impl = vlib.run_impl("jacoco", jcases, chk.pid, parallel=8, case_timeout=6)
     outcome = [jg.results_from_impl(r["res"]) if "res" in r else ("died", r) for r in impl]
     # second pass with the event dump: every case that did not end in ok/err, plus a random sample
     k = 350 if quick else 1200
